@@ -44,8 +44,12 @@ Definition final_ok (o : obs) (s : state) : bool :=
   && pz_eqb (ndata s, start s) fin && all_doneb nw s.
 
 (* strict: one turn of the schedule = one atomic action; the action stream must agree too *)
-Definition chk_strict (t : obs * list Z * list (Z * Z)) : bool :=
-  let '(o, sched, events) := t in
+(* one recorded execution: observations, executed schedule (worker per turn), action stream (one per turn),
+   and the order of completed critical sections / result writes derived from the action stream *)
+Definition tcase := (obs * list Z * list (Z * Z) * list (Z * Z))%type.
+
+Definition chk_strict (t : tcase) : bool :=
+  let '(o, sched, events, _) := t in
   let '(c, _, _, _, _, _) := o in
   let '(s, es) := run_events c (init c) sched in
   list_eqb pz_eqb es events && final_ok o s.
@@ -63,7 +67,7 @@ Definition macro_step (c : cfg) (s : state) (m : Z * Z) : state :=
   if snd m =? 0 then match pcs s w with PIdle => cs_steps 6 c s w | _ => s end
   else match pcs s w with PWork _ _ => step c s w | _ => s end.
 
-Definition chk_macro (t : obs * list (Z * Z)) : bool :=
-  let '(o, msched) := t in
+Definition chk_macro (t : tcase) : bool :=
+  let '(o, _, _, msched) := t in
   let '(c, _, _, _, _, _) := o in
   final_ok o (fold_left (macro_step c) msched (init c)).
